@@ -323,6 +323,10 @@ func (tp *TableParser) parseCellParagraph(p paragraphXML) parsedParagraph {
 		}
 	}
 	parsed.Text = strings.Join(textParts, "")
+	if p.InnerXML != "" {
+		// Inline content in document order
+		parsed.Text = paragraphInlineText(p.InnerXML)
+	}
 
 	return parsed
 }
